@@ -1634,6 +1634,12 @@ class Irc(IrcCommandDispatcher, log.Firewalled):
                     'aborting connection.', self.network)
             self.driver.reconnect(wait=True)
             return
+        if self.state.capabilities_req - self.state.capabilities_ack \
+                - self.state.capabilities_nak:
+            # A CAP REQ is still unanswered (eg. sent because of a CAP NEW
+            # received during SASL authentication); capUpkeep will end the
+            # negotiation when the server answers it.
+            return
         self.state.fsm.on_cap_end(self, msg)
         self.sendMsg(ircmsgs.IrcMsg(command='CAP', args=('END',)))
 
@@ -1674,6 +1680,9 @@ class Irc(IrcCommandDispatcher, log.Firewalled):
                         x for x in self.sasl_next_mechanisms
                         if x.lower() in available]
             self.tryNextSaslMechanism(msg)
+        elif self.state.fsm.state == IrcStateFsm.States.INIT_CAP_NEGOTIATION:
+            # Already authenticated, and the last CAP REQ was just answered
+            self.endCapabilityNegociation(msg)
 
     def doAuthenticate(self, msg):
         self.state.fsm.expect_state([
